@@ -69,6 +69,7 @@ UpdCmdCall(h, e) ==
                 ret |-> 0, retT |-> 0, res |-> "", dto |-> e.dto, drto |-> e.drto,
                 maxPause |-> e.max_pause, msg |-> e.msg, prev |-> dr, s |-> e.t, ovl |-> ovl,
                 hcI |-> e.hc_interval, hcT |-> e.hc_timeout, pre |-> sv,
+                pages503 |-> ("pages503" \in DOMAIN e) /\ e.pages503,
                 binds |-> IF e.kind = "deploy"
                           THEN {<<x, y>> : x \in (IF e.hosts = <<>> THEN {""} ELSE SetOf(e.hosts)),
                                            y \in (IF e.paths = <<>> THEN {"/"} ELSE SetOf(e.paths))}
@@ -432,9 +433,15 @@ ChkPause(h, r, rid, e) ==
            If(~(e.status = 503 /\ e.msg = h.cmd[f].msg /\ ~e.markup),
               {V("C07_c", rid, Sig(r), <<"held request after stop got", e.status, e.msg, "expected 503", h.cmd[f].msg>>)})
   ELSE IF r.pAtSend = "stopped" THEN
-     \* C08: definitely stopped and not disturbed: 503 with the operator's message, at once
+     \* C08: definitely stopped and not disturbed: 503 with the operator's message, at once,
+     \* rendered from the service's own 503 page if it has one and from the built-in page otherwise
+     LET page == IF r.curAtSend # NoCmd /\ Has(h.cmd, r.curAtSend) /\ h.cmd[r.curAtSend].pages503 THEN "custom503" ELSE "builtin"
+         steadyPages == \A k \in DOMAIN h.cmd : (h.cmd[k].svc = r.svc /\ h.cmd[k].kind = "deploy") => h.cmd[k].pages503 = (page = "custom503")
+     IN
      If(P = {} /\ ~(e.status = 503 /\ e.msg = h.cmd[r.pcmdAtSend].msg /\ ~e.markup /\ (h.urgent => e.t = r.sendT)),
         {V("C08", rid, Sig(r), <<"request while stopped got", e.status, e.msg, "markup", e.markup, "expected 503", h.cmd[r.pcmdAtSend].msg, e.t>>)})
+     \cup If(P = {} /\ e.status = 503 /\ steadyPages /\ e.page # page,
+        {V("C08", rid, Sig(r), <<"503 of a stopped service rendered from", e.page, "expected", page>>)})
   ELSE
      \* C07_f: running at send: a 503 needs a stop during the request's life (or failing targets)
      \* (requests overlapping a redeploy are C02's business, not this one's)
